@@ -318,7 +318,7 @@ func (sc *e2eC11Sc) sizeClass(src string, p netip.Prefix) (int, string) {
 func TestVerifE2E_C11(t *testing.T) {
 	rec := vlib.Open("C11")
 	defer rec.Close()
-	total := vlib.Scale(288, 5760)
+	total := vlib.Scale(384, 7680)
 	vlib.Cases(total, func(idx int) {
 		rec.Mark(fmt.Sprintf("e2e c11 scenario %d", idx), true)
 		synctest.Test(t, func(t *testing.T) { e2eC11Scenario(t, rec, idx) })
